@@ -131,6 +131,7 @@ func (d *Decorator) DecorateNode(n ast.Node) (dst.Node, error) {
 		fd.file = f
 	}
 	if pkg, ok := n.(*ast.Package); ok {
+		fd.pkg = pkg
 		// Comments and line breaks are attached file by file: the search for an attachment point
 		// must never run from the end of one file into the start of the next.
 		for _, file := range pkg.Files {
@@ -184,7 +185,8 @@ func (pd *Decorator) newFileDecorator() *fileDecorator {
 
 type fileDecorator struct {
 	*Decorator
-	file          *ast.File // file we're decorating in for import name resolution - can be nil if we're just decorating an isolated node
+	file          *ast.File    // file we're decorating in for import name resolution - can be nil if we're just decorating an isolated node
+	pkg           *ast.Package // package we're decorating, if any: the file an identifier belongs to is looked up in it
 	cursor        int
 	fragments     []fragment
 	startIndents  map[ast.Node]int
@@ -341,7 +343,18 @@ func (f *fileDecorator) resolvePath(force bool, parent ast.Node, parentName, par
 		}
 	}
 
-	path, err := f.Resolver.ResolveIdent(f.file, parent, parentField, id)
+	file := f.file
+	if file == nil && f.pkg != nil {
+		// decorating a whole package: the resolver needs the file the identifier stands in
+		for _, pf := range f.pkg.Files {
+			if pf.Pos() <= id.Pos() && id.Pos() < pf.End() {
+				file = pf
+				break
+			}
+		}
+	}
+
+	path, err := f.Resolver.ResolveIdent(file, parent, parentField, id)
 	if err != nil {
 		return "", err
 	}
